@@ -319,7 +319,7 @@ def run_shard(spec, res):
                 hdr = [str(c) for c in out.columns] if exp_header else None
             except Exception as e:
                 err = '%s: %s' % (type(e).__name__, str(e)[:100])
-            cmp('pandas', rows, hdr, err, check_header=bool(exp_rows))
+            cmp('pandas', rows, hdr, err)
 
             # 5. sqlite (always has column names)
             if has_header:
